@@ -3,6 +3,7 @@ package main
 import (
 	"fmt"
 	"go/ast"
+	"go/token"
 	"go/types"
 	"strings"
 )
@@ -109,6 +110,144 @@ func runEmitGuards(c *Ctx) []Obligation {
 				ob.Detail = fmt.Sprintf("%d emitting if statements in one block, all guarded by `%s`", len(ifs), nodeText(c.Fset, ifs[0].Cond))
 			}
 			out = append(out, ob)
+			return true
+		})
+	}
+	return out
+}
+
+// SLOT-GUARD (C23, C21): the VM keeps arguments in a fixed array (`Args [MaxArgs]StackFrame`); the
+// compiler hands out its slots one by one with a counter (`f.Bind(s, c.NumArgs); c.NumArgs++`) after
+// a capacity test. A counter that still equals the capacity must be rejected: the test `n > K` admits
+// n == K, the slot one past the end, and the first use of that slot indexes the array out of range —
+// in a request handler, a panic.
+//
+// Slots (by shape, package api): an if statement whose body returns an error and whose condition
+// compares a variable or field X with a constant K that is the length of an array type of the
+// package, followed in the same block by an increment of X (X++ / X += 1) — X counts slots handed
+// out. Obligation: the condition rejects X == K (`X >= K`, `K <= X`, or `X + 1 > K`).
+func init() {
+	register(&Rule{
+		Name:  "SLOT-GUARD",
+		IR:    "ast",
+		Props: []string{"C23", "C21"},
+		Floor: 1,
+		Doc:   "where the compiler hands out the slots of a fixed-size array with a counter, the capacity test before a slot is handed out rejects a counter equal to the array's length (>=, not >): the slot one past the end is never bound",
+		Run:   runSlotGuard,
+	})
+}
+
+func runSlotGuard(c *Ctx) []Obligation {
+	var out []Obligation
+	p := c.Pkg("api")
+	if p == nil {
+		return out
+	}
+	info := p.TypesInfo
+	// constants that are array lengths in the package
+	arrayLens := map[types.Object]string{}
+	for _, f := range p.Syntax {
+		ast.Inspect(f, func(n ast.Node) bool {
+			at, ok := n.(*ast.ArrayType)
+			if !ok || at.Len == nil {
+				return true
+			}
+			if id, ok := ast.Unparen(at.Len).(*ast.Ident); ok {
+				if k, ok := info.Uses[id].(*types.Const); ok {
+					arrayLens[k] = c.Position(at.Pos())
+				}
+			}
+			return true
+		})
+	}
+	for _, fd := range c.FuncDecls(p) {
+		name := c.FuncName(p, fd)
+		ord := 0
+		ast.Inspect(fd.Body, func(n ast.Node) bool {
+			blk, ok := n.(*ast.BlockStmt)
+			if !ok {
+				return true
+			}
+			for i, st := range blk.List {
+				is, ok := st.(*ast.IfStmt)
+				if !ok || is.Else != nil {
+					continue
+				}
+				be, ok := ast.Unparen(is.Cond).(*ast.BinaryExpr)
+				if !ok {
+					continue
+				}
+				// K on one side
+				var x ast.Expr
+				var k types.Object
+				op := be.Op
+				if id, ok := ast.Unparen(be.Y).(*ast.Ident); ok {
+					if o := info.Uses[id]; o != nil && arrayLens[o] != "" {
+						x, k = be.X, o
+					}
+				}
+				if k == nil {
+					if id, ok := ast.Unparen(be.X).(*ast.Ident); ok {
+						if o := info.Uses[id]; o != nil && arrayLens[o] != "" {
+							x, k = be.Y, o
+							switch op {
+							case token.LSS:
+								op = token.GTR
+							case token.LEQ:
+								op = token.GEQ
+							case token.GTR:
+								op = token.LSS
+							case token.GEQ:
+								op = token.LEQ
+							}
+						}
+					}
+				}
+				if k == nil {
+					continue
+				}
+				returnsErr := false
+				for _, bs := range is.Body.List {
+					if r, ok := bs.(*ast.ReturnStmt); ok && len(r.Results) > 0 {
+						if id, ok := ast.Unparen(r.Results[len(r.Results)-1]).(*ast.Ident); !ok || id.Name != "nil" {
+							returnsErr = true
+						}
+					}
+				}
+				if !returnsErr {
+					continue
+				}
+				// X incremented later in the block
+				plusOne := false
+				if add, ok := ast.Unparen(x).(*ast.BinaryExpr); ok && add.Op == token.ADD {
+					if tv := info.Types[add.Y]; tv.Value != nil && tv.Value.ExactString() == "1" {
+						x, plusOne = add.X, true
+					}
+				}
+				incremented := false
+				for _, later := range blk.List[i+1:] {
+					if inc, ok := later.(*ast.IncDecStmt); ok && inc.Tok == token.INC && sameExpr(info, inc.X, x) {
+						incremented = true
+					}
+					if as, ok := later.(*ast.AssignStmt); ok && as.Tok == token.ADD_ASSIGN && len(as.Lhs) == 1 && sameExpr(info, as.Lhs[0], x) {
+						incremented = true
+					}
+				}
+				if !incremented {
+					continue
+				}
+				ord++
+				ob := Obligation{Key: fmt.Sprintf("%s#%d", name, ord), Pos: c.Position(is.Pos()), Status: OK}
+				rejectsEqual := op == token.GEQ || (op == token.GTR && plusOne) || op == token.EQL
+				if rejectsEqual {
+					ob.Detail = fmt.Sprintf("`%s` rejects a slot counter equal to %s, the length of the array declared at %s", nodeText(c.Fset, is.Cond), k.Name(), arrayLens[k])
+				} else {
+					ob.Status = Violation
+					ob.Detail = fmt.Sprintf("`%s` admits %s == %s: the counter is then used as the next slot and incremented, but the array declared at %s has only the slots 0..%s-1 — the first store to that slot indexes out of range",
+						nodeText(c.Fset, is.Cond), nodeText(c.Fset, x), k.Name(), arrayLens[k], k.Name())
+				}
+				out = append(out, ob)
+			}
 			return true
 		})
 	}
